@@ -262,6 +262,11 @@ fn convergent_paths() -> BoxedStrategy<Node> {
         Node::ncap(Node::Alt(vec![l('a'), Node::cap(l('a'))])),
         Node::cap(Node::Alt(vec![l('a'), Node::Empty])),
         Node::cap(Node::rep(l('a'), 0, Some(1), true)),
+        // two groups that can split the same run of text in different ways
+        Node::Cat(vec![Node::cap(Node::rep(l('a'), 0, None, true)), Node::cap(Node::rep(l('a'), 0, None, true))]),
+        Node::Cat(vec![Node::cap(Node::rep(l('a'), 0, Some(1), true)), Node::cap(Node::rep(l('a'), 0, None, true))]),
+        Node::Cat(vec![Node::cap(Node::Alt(vec![l('a'), Node::Cat(vec![l('a'), l('a')])])), Node::cap(Node::rep(l('a'), 0, Some(1), true))]),
+        Node::Cat(vec![Node::cap(Node::rep(l('a'), 0, None, false)), Node::cap(Node::rep(l('a'), 0, None, true))]),
     ]);
     let resync = prop::sample::select(vec![
         Node::ncap(Node::Alt(vec![Node::Cat(vec![l('b'), l('c')]), l('c')])),
